@@ -361,16 +361,20 @@ def gram_check(answers, numel, probes, foreign=0, rtol=1e-9):
     probes["H_checked"] += sum(kind)
     var = np.diag(C)
     scale = np.sqrt(np.outer(var, var))
+    # rounding: an answer over a short interval is obtained by cancellation from its ancestors' (much larger) values,
+    # so its coefficient vector carries an absolute error ~ k * eps * sqrt(largest variance in the tree)
+    sd = np.sqrt(var)
+    abs_term = (1e-5 if rtol > 1e-6 else 1e-13) * math.sqrt(float(var.max())) * (sd[:, None] + sd[None, :])
     for e in range(numel):
         Ve = V[:, :, e]
         G = (Ve @ Ve.T).numpy()
-        bad = np.abs(G - C) > rtol * scale + 1e-300
+        bad = np.abs(G - C) > rtol * scale + abs_term + 1e-300
         if bad.any():
             i, j = [int(x) for x in np.argwhere(bad)[0]]
             exact = kernel_exact(kind[i], s[i], t[i], kind[j], s[j], t[j])
             sc = math.sqrt(float(kernel_exact(kind[i], s[i], t[i], kind[i], s[i], t[i])) *
                            float(kernel_exact(kind[j], s[j], t[j], kind[j], s[j], t[j])))
-            if abs(float(G[i, j]) - float(exact)) > rtol * sc:
+            if abs(float(G[i, j]) - float(exact)) > rtol * sc + float(abs_term[i, j]):
                 names = "WH"
                 if i == j:
                     vclass = f"law_var_{names[kind[i]]}"
@@ -385,7 +389,7 @@ def gram_check(answers, numel, probes, foreign=0, rtol=1e-9):
         for e2 in range(e + 1, numel):
             X = (Ve @ V[:, :, e2].T).numpy()
             probes["cross_element_blocks"] += 1
-            if np.abs(X).max() > max(1e-12, rtol * 1e-3) * max(scale.max(), 1e-300):
+            if (np.abs(X) > max(1e-12, rtol * 1e-3) * max(scale.max(), 1e-300) + abs_term).any():
                 i, j = [int(x) for x in np.argwhere(np.abs(X) == np.abs(X).max())[0]]
                 raise Violation("law_cross_element", {"x": [kind[i], fx(s[i]), fx(t[i])], "y": [kind[j], fx(s[j]), fx(t[j])],
                                                       "elements": [e, e2], "got": float(X[i, j])}, answers[j][4])
